@@ -322,7 +322,7 @@ func checkInverses(ctx *Ctx, r *Report) {
 		ev := newEval(ctx)
 		res, _ := ev.evalRoot(em)
 		t, _ := res.(*Term)
-		recv := em.Params[0].Name()
+		recv := paramName(em, 0)
 		dim := n - 1
 		var pt []*Term
 		comps := []string{"X", "Y", "Z"}[:dim]
@@ -604,7 +604,7 @@ func checkSawTooth(ctx *Ctx, r *Report) {
 	ev := newEval(ctx)
 	res, _ := ev.evalRoot(fn)
 	t, _ := res.(*Term)
-	x, p := A(fn.Params[0].Name()), A(fn.Params[1].Name())
+	x, p := A(paramName(fn, 0)), A(paramName(fn, 1))
 	tt := Div(Add(x, half(p)), p)
 	want := Sub(Mul(p, Sub(tt, Call("math.Floor", tt))), half(p))
 	// the floor argument must itself be (x + P/2)/P
@@ -635,7 +635,7 @@ func checkSawTooth(ctx *Ctx, r *Report) {
 		res, _ := ev.evalRoot(cf)
 		m := map[string]*Term{}
 		leafTerms("", res, m)
-		a, lo, hi := cf.Params[0].Name(), cf.Params[1].Name(), cf.Params[2].Name()
+		a, lo, hi := paramName(cf, 0), paramName(cf, 1), paramName(cf, 2)
 		ok := len(m) == pk.dim
 		for _, c := range []string{"X", "Y", "Z"}[:pk.dim] {
 			t := m["."+c]
@@ -762,7 +762,7 @@ func checkMatrices(ctx *Ctx, r *Report) {
 	}
 	// Rotate3d
 	if fn, res := evalFn("Rotate3d"); fn != nil {
-		v, a := fn.Params[0].Name(), fn.Params[1].Name()
+		v, a := paramName(fn, 0), paramName(fn, 1)
 		L := Call("math.Sqrt", Add(Mul(A(v+".X"), A(v+".X")), Mul(A(v+".Y"), A(v+".Y")), Mul(A(v+".Z"), A(v+".Z"))))
 		ax := []*Term{Div(A(v+".X"), L), Div(A(v+".Y"), L), Div(A(v+".Z"), L)}
 		c, s := Call("math.Cos", A(a)), Call("math.Sin", A(a))
@@ -803,33 +803,33 @@ func checkMatrices(ctx *Ctx, r *Report) {
 		cmpMat("Rotate3d|rodrigues-right-handed", fn, matLeaves(res, 16), want, "R = c·I + (1−c)·v̂v̂ᵀ + s·[v̂]×")
 	}
 	if fn, res := evalFn("Rotate2d"); fn != nil {
-		a := fn.Params[0].Name()
+		a := paramName(fn, 0)
 		c, s := Call("math.Cos", A(a)), Call("math.Sin", A(a))
 		cmpMat("Rotate2d|counter-clockwise", fn, matLeaves(res, 9), []*Term{c, Neg(s), K(0), s, c, K(0), K(0), K(0), K(1)}, "[[c,−s,0],[s,c,0],[0,0,1]]")
 	}
 	if fn, res := evalFn("Rotate"); fn != nil {
-		a := fn.Params[0].Name()
+		a := paramName(fn, 0)
 		c, s := Call("math.Cos", A(a)), Call("math.Sin", A(a))
 		cmpMat("Rotate|counter-clockwise", fn, matLeaves(res, 4), []*Term{c, Neg(s), s, c}, "[[c,−s],[s,c]]")
 	}
 	if fn, res := evalFn("Translate3d"); fn != nil {
-		v := fn.Params[0].Name()
+		v := paramName(fn, 0)
 		I := K(1)
 		Z := K(0)
 		cmpMat("Translate3d", fn, matLeaves(res, 16), []*Term{I, Z, Z, A(v + ".X"), Z, I, Z, A(v + ".Y"), Z, Z, I, A(v + ".Z"), Z, Z, Z, I}, "identity with the translation in the last column")
 	}
 	if fn, res := evalFn("Translate2d"); fn != nil {
-		v := fn.Params[0].Name()
+		v := paramName(fn, 0)
 		I, Z := K(1), K(0)
 		cmpMat("Translate2d", fn, matLeaves(res, 9), []*Term{I, Z, A(v + ".X"), Z, I, A(v + ".Y"), Z, Z, I}, "identity with the translation in the last column")
 	}
 	if fn, res := evalFn("Scale3d"); fn != nil {
-		v := fn.Params[0].Name()
+		v := paramName(fn, 0)
 		I, Z := K(1), K(0)
 		cmpMat("Scale3d", fn, matLeaves(res, 16), []*Term{A(v + ".X"), Z, Z, Z, Z, A(v + ".Y"), Z, Z, Z, Z, A(v + ".Z"), Z, Z, Z, Z, I}, "diagonal scale")
 	}
 	if fn, res := evalFn("Scale2d"); fn != nil {
-		v := fn.Params[0].Name()
+		v := paramName(fn, 0)
 		I, Z := K(1), K(0)
 		cmpMat("Scale2d", fn, matLeaves(res, 9), []*Term{A(v + ".X"), Z, Z, Z, A(v + ".Y"), Z, Z, Z, I}, "diagonal scale")
 	}
@@ -839,7 +839,7 @@ func checkMatrices(ctx *Ctx, r *Report) {
 		n    int
 	}{{"(M44).Mul", 4}, {"(M33).Mul", 3}, {"(M22).Mul", 2}} {
 		if fn, res := evalFn(pm.name); fn != nil {
-			a, b := fn.Params[0].Name(), fn.Params[1].Name()
+			a, b := paramName(fn, 0), paramName(fn, 1)
 			n := pm.n
 			want := make([]*Term, n*n)
 			for i := 0; i < n; i++ {
@@ -859,7 +859,7 @@ func checkMatrices(ctx *Ctx, r *Report) {
 		n    int
 	}{{"(M44).MulPosition", 4}, {"(M33).MulPosition", 3}} {
 		if fn, res := evalFn(pm.name); fn != nil {
-			a, b := fn.Params[0].Name(), fn.Params[1].Name()
+			a, b := paramName(fn, 0), paramName(fn, 1)
 			n := pm.n
 			d := n - 1
 			comps := []string{"X", "Y", "Z"}[:d]
@@ -883,7 +883,7 @@ func checkMatrices(ctx *Ctx, r *Report) {
 		n    int
 	}{{"(M44).Inverse", 4}, {"(M33).Inverse", 3}, {"(M22).Inverse", 2}} {
 		if fn, res := evalFn(pm.name); fn != nil {
-			a := fn.Params[0].Name()
+			a := paramName(fn, 0)
 			n := pm.n
 			got := matLeaves(res, n*n)
 			ok := true
@@ -1019,8 +1019,8 @@ func checkVoxelLattice(ctx *Ctx, r *Report) {
 		r.undecided("M8", key, meth.Pos(), "Evaluate is not a closed form")
 		return
 	}
-	recv := meth.Params[0].Name()
-	pt := meth.Params[1].Name()
+	recv := paramName(meth, 0)
+	pt := paramName(meth, 1)
 	// the stored fields are named (N.X for numVoxels.X, ...) wherever they occur in the sample
 	// position, so that the substituted terms stay small
 	abbrev := map[string]*Term{}
